@@ -443,7 +443,9 @@ func ruleRevisionSelection(c *Ctx, r4, r7 string) {
 											x, op, y, okc := cmpFact(f)
 											if okc && op == token.EQL {
 												if lc, isC := x.(*ssa.Call); isC && calleeName(lc) == "builtin.len" {
-													if k2, isK2 := constInt(y); isK2 && k2 == 0 {
+													// ... the length of the ADVERTISED list
+													_, lch := fieldChain(origin(lc.Call.Args[0]))
+													if k2, isK2 := constInt(y); isK2 && k2 == 0 && len(lch) >= 1 && lch[len(lch)-1] == "SupportedProtocolRevisions" {
 														lit = true
 													}
 												}
@@ -1213,6 +1215,50 @@ func ruleUnregisterAndCallbacks(c *Ctx, r6, r7 string) {
 			}
 		}
 	}
+	if ok7 {
+		// the deferred close callback is registered exactly when it is configured: the only test in front of it that the
+		// open callback does not share is its own != nil
+		for _, f := range boolFactsAt(closeD[0]) {
+			isOwn := false
+			if b, isB := f.V.(*ssa.BinOp); isB && isNilConst(b.Y) && b.Op == token.NEQ && f.True {
+				if fr, _, isF := loadedField(b.X); isF && fr.Field == ro.TSHOnDisconnect {
+					isOwn = true
+				}
+			}
+			if b, isB := f.V.(*ssa.BinOp); isB && isNilConst(b.Y) && b.Op == token.EQL && !f.True {
+				if fr, _, isF := loadedField(b.X); isF && fr.Field == ro.TSHOnDisconnect {
+					isOwn = true
+				}
+			}
+			if !isOwn {
+				sharedWithOpen := false
+				for _, g := range boolFactsAt(open[0]) {
+					if g.V == f.V && g.True == f.True {
+						sharedWithOpen = true
+					}
+				}
+				if b, isB := f.V.(*ssa.BinOp); isB && isNilConst(b.Y) {
+					if fr, _, isF := loadedField(b.X); isF && (fr.Field == ro.TSHOnConnect) {
+						sharedWithOpen = false // the OTHER callback's nil test
+					}
+				}
+				if !sharedWithOpen {
+					ok7 = false
+				}
+			}
+		}
+		hasOwn := false
+		for _, f := range boolFactsAt(closeD[0]) {
+			if b, isB := f.V.(*ssa.BinOp); isB && isNilConst(b.Y) {
+				if fr, _, isF := loadedField(b.X); isF && fr.Field == ro.TSHOnDisconnect {
+					hasOwn = true
+				}
+			}
+		}
+		if !hasOwn {
+			ok7 = false // a nil close callback would be deferred and panic
+		}
+	}
 	c.check(ok7, r7, w.Short(ort)+": one open callback after registration, close callback deferred", posOf(w, ort), "open(ch) once after both adds; defer close(ch)", "the open/close callbacks are not 'exactly one open call after registration, and a deferred close call for the same channel', or one of them sits in a loop")
 	// the fields consulted above hold what the user configured: each is assigned only the option of the public options
 	// struct that is documented for it (public API names, frozen here; the handler's own field names are resolved by use)
@@ -1425,12 +1471,14 @@ func ruleKeyAsChannel(c *Ctx, rule string) {
 					if absent {
 						okAns, why = false, "the registry's method is called on the branch where the lookup found no registry (nil dereference)"
 					}
-					_ = present
+					if _, fromMap := origin(x.Call.Args[0]).(*ssa.Lookup); fromMap && !present && !nilSafeMethod(g) {
+						okAns, why = false, "the registry's method is called on what the map lookup returned without a nil test, and that method dereferences its receiver (no tunnel ever registered for the key: nil dereference)"
+					}
 				}
 			}
 		})
-		if nZero == 0 {
-			return // a slot without a 'no registry' answer (the wait creates the registry)
+		if nZero == 0 && okAns {
+			return // a slot without a 'no registry' answer (the wait creates the registry; or the callee is nil-safe)
 		}
 		c.check(okAns && nDel >= 1, rule, "KeyAsChannel: "+cf.Name()+" answers for the registry of the key", w.At(mc), "zero answer iff no registry, else the registry's answer", "this function of the pooled channel is wrong about the 'no registry for this key' case: "+why)
 	})
@@ -1577,4 +1625,32 @@ func ruleGetOrCreateAtomic(c *Ctx, rule string) {
 		})
 	}
 	c.floor(rule, n, 1, "inserts into the by-key registry map")
+}
+
+
+// nilSafeMethod: the method begins by testing its receiver against nil and returns on that branch without touching it.
+func nilSafeMethod(g *ssa.Function) bool {
+	if len(g.Blocks) == 0 || len(g.Params) == 0 {
+		return false
+	}
+	entry := g.Blocks[0]
+	ifi, ok := entry.Instrs[len(entry.Instrs)-1].(*ssa.If)
+	if !ok {
+		return false
+	}
+	f := normFact(EdgeFact{ifi.Cond, true})
+	b, isB := f.Cond.(*ssa.BinOp)
+	if !isB || !isNilConst(b.Y) || stripConv(b.X) != ssa.Value(g.Params[0]) {
+		return false
+	}
+	for _, in := range entry.Instrs[:len(entry.Instrs)-1] {
+		if _, isDbg := in.(*ssa.DebugRef); isDbg {
+			continue
+		}
+		if _, isBin := in.(*ssa.BinOp); isBin {
+			continue
+		}
+		return false // something happens before the test
+	}
+	return true
 }
